@@ -158,6 +158,11 @@ def check_input(input_data, y=None, preprocessor=None,
     raise ValueError("Unknown value {} for type_of_inputs. Valid values are "
                      "'classic' or 'tuples'.".format(type_of_inputs))
 
+  # the points are used in floating point arithmetic from here on: in an
+  # integer dtype (unsigned, or narrow) their differences and squares would
+  # wrap around silently
+  if input_data.dtype.kind in 'iub':
+    input_data = input_data.astype(float)
   return input_data if y is None else (input_data, y)
 
 
